@@ -549,3 +549,71 @@ def c11_r10(ctx):
                        % (ai.short, ", ".join(bad))) if bad else "", loc=K.loc)
     if n < 12:
         raise AnalysisError("only %d wrapping matcher classes" % n)
+
+
+REPLACE_TABLES = {
+    # class -> expected outcome per (a active, b active): "null", "a" (what remains is a's replacement), "b"
+    "matching.binary.UnionMatcher": {(True, False): "a", (False, True): "b", (False, False): "null"},
+    "matching.binary.DisjunctionMaxMatcher": {(True, False): "a", (False, True): "b", (False, False): "null"},
+    "matching.binary.IntersectionMatcher": {(True, False): "null", (False, True): "null", (False, False): "null"},
+    "matching.binary.AndNotMatcher": {(True, False): "a", (False, True): "null", (False, False): "null"},
+    "matching.binary.AndMaybeMatcher": {(True, False): "a", (False, True): "null", (False, False): "null"},
+}
+
+
+@rule("C11", "R11", "K4", "replace() of a binary matcher with an exhausted side keeps exactly what the operator still matches",
+      min_instances=5, also=("C01", "C05"),
+      clause="replace(minquality) is evaluated case by case over (a active?, b active?) with no quality threshold: a disjunction "
+             "(Union, DisjunctionMax) with one exhausted side continues as the other side and is empty only when both are; a "
+             "conjunction is empty as soon as one side is; AndNot/AndMaybe are empty when the required side is and continue as that "
+             "side when only the other one is exhausted. The table is computed from the code whatever its shape (early returns, "
+             "cached activity flags, re-checks after the children were replaced).")
+def c11_r11(ctx):
+    from .. import cases
+    prog = ctx.prog
+    for cname, want in sorted(REPLACE_TABLES.items()):
+        K = prog.cls(cname)
+        f = K.methods.get("replace")
+        if f is None:
+            raise AnalysisError("%s.replace vanished" % cname)
+        ctx.saw(f)
+        got = {}
+        for key in sorted(want):
+            case = {"a": key[0], "b": key[1]}
+
+            def absval(e, env, ev, case=case):
+                if isinstance(e, ast.Call) and isinstance(e.func, ast.Attribute) and e.func.attr == "is_active" and not e.args:
+                    r = cases.path_text(e.func.value, env).replace("self.", "")
+                    if r in case:
+                        return ("bool", case[r])
+                if isinstance(e, ast.Call) and norm.call_name(e) in ("NullMatcher", "NullMatcherClass"):
+                    return ("null",)
+                if isinstance(e, ast.Constant):
+                    return ("const", e.value)
+                if cases.is_plain_path(e):
+                    return ("path", cases.path_text(e, env))          # ("path", ...) lets path_text expand `pos = self.a`
+                if isinstance(e, ast.Call) and isinstance(e.func, ast.Attribute) and e.func.attr == "replace":
+                    return ("path", cases.path_text(e.func.value, env))
+                return ("other", norm.canon(e)[:40])
+
+            def decide(t, env, ev):
+                if isinstance(t, ast.Name) and t.id in f.params[1:]:
+                    return False        # no threshold
+                v = ev.value(t, env)
+                if v[0] == "bool":
+                    return v[1]
+                if v[0] == "const":
+                    return bool(v[1])
+                return None
+            _, ret = cases.CaseEval(f.node, absval, decide).run({})
+            if ret == ("null",):
+                got[key] = "null"
+            elif ret[0] == "path" and ret[1].replace("self.", "") in ("a", "b"):
+                got[key] = ret[1].replace("self.", "")
+            else:
+                got[key] = str(ret)
+        for key in sorted(want):
+            ctx.ob(f, got[key] == want[key], "%s.replace() with a %s, b %s -> %s" % (
+                K.name, "active" if key[0] else "exhausted", "active" if key[1] else "exhausted",
+                {"null": "nothing", "a": "a's replacement", "b": "b's replacement"}[want[key]]),
+                detail="computed: %s" % got[key] if got[key] != want[key] else "")
